@@ -34,6 +34,13 @@ def gen_history(rng, fam):
     shape = rng.choice(('chain', 'chain', 'diamond', 'random', 'random'))
     p_soft = rng.choice((0.0, 0.0, 0.3, 1.0))
     p_edge = rng.choice((0.3, 0.5, 0.8))
+    rough = fam.get('rough', False)
+    if rough:
+        # mixed hard/soft graphs in which much is lost and much fails
+        ntask = rng.choice((3, 4, 4, 5, 6))
+        shape = 'random'
+        p_soft = rng.choice((0.3, 0.5))
+        p_edge = rng.choice((0.5, 0.8))
     tasks = []
     for i in range(ntask):
         if shape == 'chain':
@@ -57,8 +64,8 @@ def gen_history(rng, fam):
                       rng.randrange(1, 3)})
     nruns = rng.choice((2, 2, 3, 3, 4, 5))
     runs = []
-    p_fail = rng.choice((0.0, 0.1, 0.3))
-    p_lose = rng.choice((0.1, 0.3, 0.5))
+    p_fail = rng.choice((0.0, 0.1, 0.3)) if not rough else 0.3
+    p_lose = rng.choice((0.1, 0.3, 0.5)) if not rough else 0.5
     for r in range(nruns):
         run = {'workers': rng.choice((1, 2, 2, 3, 4)),
                'via': rng.choice(('execute', 'execute', 'direct')),
@@ -74,6 +81,7 @@ def gen_history(rng, fam):
                             'byte': rng.choice((0, 1, 20, 60, 10 ** 6))}]
         runs.append(run)
     return {'kind': 'history', 'tasks': tasks, 'runs': runs,
+            'late_master': rough or rng.random() < 0.15,
             'salt': rng.randrange(1 << 30),
             'tick': rng.choice(sched.TICKS),
             'linemode': rng.random() < 0.15}
@@ -97,7 +105,18 @@ class HistoryChooser:
     def for_run(self, r, scn):
         fake = {'tasks': scn['tasks'], 'workers': scn['runs'][r]['workers'],
                 'linemode': scn.get('linemode')}
-        chooser = sched.draw_chooser(self.rng, fake)
+        if scn.get('late_master') and r > 0 and self.rng.random() < 0.6:
+            # the master is held up somewhere in its first pass over the
+            # tasks while the workers finish what it has queued so far
+            rng = self.rng
+            base = policy.RandomWalk(rng, rng.choice((0.0, 0.02, 0.1)))
+            chooser = policy.Stall(rng, base, [{
+                'at': 'tstep', 'tid': 0,
+                'n': rng.randrange(0, 25 + 12 * len(scn['tasks'])),
+                'dur': rng.choice((300, 1500, 6000))}])
+            chooser.name = 'stall-master'
+        else:
+            chooser = sched.draw_chooser(self.rng, fake)
         self.names.append(chooser.name)
         return chooser
 
@@ -613,7 +632,8 @@ class Spec(simcheck.SimSpec):
     level = 'exploration'
     runs = {'quick': 12000, 'thorough': 600000}
     shard_runs = 100
-    families = [{'label': 'histories'}, {'label': 'histories-2'},
+    families = [{'label': 'histories'}, {'label': 'histories-rough',
+                                         'rough': True},
                 {'label': 'histories-with-crashes', 'crash': True}]
     rule = ('one evaluation = one history of 2-5 runs of one job (2-7 probe '
             'tasks, chains / diamonds / random hard+soft graphs, tasks added '
